@@ -13,7 +13,7 @@ use serde_json::json;
 pub fn prop() -> Prop {
   Prop {
     id: "C09",
-    rule: "case = (operator in debounce(w) / throttle_time(w, edge) / throttle(item-dependent window, edge) / sample(interval(p)) / buffer_with_time(p) / buffer_with_count_and_time(n,p); w in {0,1,2,3,5}, p in {1,2,3,5}, n in 1..3, all three throttle edges; timed script of <= 10 steps over a hot source with uniquely numbered items: emit, advance 1..3 ticks with a prompt executor, or advance and let the due timers' tasks run only *after* the next emission (same-instant source event before the timer task), one terminal (complete or error); local / per-node _threads / thread-safe build). \
+    rule: "case = (operator in debounce(w) / throttle_time(w, edge) / throttle(item-dependent window, edge) / sample(interval(p)) / buffer_with_time(p) / buffer_with_count_and_time(n,p); w in {0,1,2,3,5}, p in {1,2,3,5}, n in 1..3, all three throttle edges; timed script of <= 10 steps (one case in eight: a burst of 35..75 items with gaps mostly shorter than the window) over a hot source with uniquely numbered items: emit, advance 1..3 ticks with a prompt executor, or advance and let the due timers' tasks run only *after* the next emission (same-instant source event before the timer task), one terminal (complete or error); local / per-node _threads / thread-safe build). \
            Oracle: (i) outputs consist of source items only, each at most once, in source order; buffers are non-empty, never longer than n, and their concatenation is the whole source when it completed; (ii) the (virtual time, notification) list equals a discrete-event reference model: debounce emits an item iff no newer item arrived before its timer task ran and always the last one on completion; throttle emits the window-opening item on the leading edge and the last item that arrived inside the window on the trailing edge (on completion the pending trailing item may be flushed or dropped); sample/buffers release exactly what was gathered since the previous tick. Non-trivial: >= 2 items inside one window/period, or a source event at the same instant as a timer expiry. Distinct by hash(case). \
            Part `threads` (engine T): a producer thread pushes 1..4 numbered items and then completes a SubjectThreads feeding buffer_with_time / buffer_with_count_and_time / debounce / throttle_time on a harness-driven multi-thread scheduler, while a worker thread advances the clock and runs the queued timer tasks; the probe callback contains a yield point (slow consumer); schedule = <= 3 preemptions at lock-acquisition granularity. Oracle (model-free part (i) only): source items only, at most once, in order; buffers non-empty and bounded; after completion and a final drain the buffers concatenate to the whole source.",
     assumptions: &[
@@ -88,7 +88,44 @@ fn gen_case(c: &mut dyn Choices) -> Case {
     Op::BufferTime(p) => Node::Un(Un::BufferWithTime(*p), tf, Box::new(src)),
     Op::BufferCountTime(n, p) => Node::Un(Un::BufferWithCountAndTime(*n, *p), tf, Box::new(src)),
   };
-  Case { op, pcase: PCase { node, kinds: vec![IKind::Subject], script, mode: SchedMode::Fifo, threads: c.pick(3) == 0 } }
+  let threads = c.pick(3) == 0;
+  // (appended picks, recorded tapes keep their meaning) one case in eight is a long burst instead:
+  // 35..75 items, most gaps shorter than the window
+  if c.pick(8) == 7 {
+    script.clear();
+    let mut id = 0i64;
+    let m = 35 + c.pick(41);
+    let pattern = c.pick(4);
+    for i in 0..m {
+      id += 1;
+      script.push(Step::Emit(0, Ev::N(V::I(id))));
+      let gap = match pattern {
+        0 => 1,
+        1 => (i % 2) as u64,
+        2 => {
+          if i % 17 == 16 {
+            7
+          } else {
+            1
+          }
+        }
+        _ => {
+          if i % 40 == 39 {
+            4
+          } else {
+            0
+          }
+        }
+      };
+      if gap > 0 {
+        script.push(if c.pick(6) == 0 { Step::AdvanceNoRun(gap) } else { Step::Advance(gap) });
+      }
+    }
+    if c.flag() {
+      script.push(Step::Emit(0, if c.pick(4) == 0 { Ev::Er(E(5)) } else { Ev::C }));
+    }
+  }
+  Case { op, pcase: PCase { node, kinds: vec![IKind::Subject], script, mode: SchedMode::Fifo, threads } }
 }
 
 // ------------------------------------------------------------ model --------
